@@ -303,7 +303,17 @@ def gen_keyed_cases(rng):
         ("select kv.id, k2.v from kv join k2 on kv.id = k2.id", False, 0),
         ("select id, count(*) from kv group by id", False, 0),
     ]
-    return [{"setup": setup, "sql": q, "features": ["keyed-multi-rowset"], "ordered": o, "nkeys": nk} for q, o, nk in qs]
+    cases = [{"setup": setup, "sql": q, "features": ["keyed-multi-rowset"], "ordered": o, "nkeys": nk} for q, o, nk in qs]
+    # ORDER BY a key of the padded side of an outer join whose other rows are unmatched: the sequence
+    # is compared on the ORDER BY column only (`order_cols`), ties among the NULLs are free
+    setup2 = setup + ["create table u1(a int, b int)", "insert into u1 values %s" % ", ".join("(%d, %d)" % (rng.randrange(0, 40), rng.randrange(0, 5)) for _ in range(rng.choice([4, 7])))]
+    for q in ["select b.id, a.id from k1 a left join k2 b on a.id = b.id order by b.id",
+              "select b.id, a.v from k1 a full join k2 b on a.id = b.id order by b.id",
+              "select b.id, u1.b from u1 left join k2 b on u1.a = b.id order by b.id",
+              "select s.id, u1.a from u1 left join (select id from k1 order by id limit 6) s on u1.a = s.id order by s.id",
+              "select b.id, a.id from k1 a left join k2 b on a.id = b.id order by b.id desc"]:
+        cases.append({"setup": setup2, "sql": q, "features": ["keyed-multi-rowset", "order-by-padded-key"], "ordered": True, "nkeys": 1, "order_cols": [0]})
+    return cases
 
 
 def gen_cases(rng, n):
@@ -323,5 +333,8 @@ def result_key(case, rows):
     columns are ORDER BY keys in generated ordered queries, so the sequence is determined)."""
     bag = sorted(tuple(r) for r in rows)
     if case.get("ordered"):
+        oc = case.get("order_cols")
+        if oc is not None:
+            return (bag, [tuple(r[i] for i in oc) for r in rows])
         return (bag, [tuple(r) for r in rows])
     return (bag, None)
